@@ -68,7 +68,7 @@ theorem inv1_init (P : Project) : Inv1 P (init P) := by
 set_option maxHeartbeats 400000 in
 theorem inv1_fstep {P : Project} {s s' : State} {t : Tid} (inv : Inv1 P s) (st : FStep P s t s') : Inv1 P s' := by
   have ⟨i1,i2,i3,i4,i5,i6,i7,i8,i9,i10,i11,i12⟩ := inv
-  cases st <;> constructor <;> simp only [setPc, publish, upd] <;> first | grind [target, foundPc] | skip
+  cases st <;> constructor <;> simp only [setPc, publish, goSleep, upd] <;> first | grind [target, foundPc] | skip
   case load.lower_busy d hpc =>
     intro t1 u l post pre h
     by_cases ht : t1 = t
